@@ -22,7 +22,7 @@ DET = {
  'C16-1': ('C16', 'one_label_per_node on get_components (isolated node 0)'), 'C16-2': ('C16', 'asymmetric_input_rejected'),
  'C17-1': ('C17', 'copy_true_argument_untouched on threshold_proportional'), 'C17-2': ('C17', 'normalize obligations'),
  'C18-1': (None, 'property C18 is not claimed (LAPACK)'), 'C18-2': (None, 'property C18 is not claimed (LAPACK)'),
- 'C19-1': (None, 'property C19 is not claimed'), 'C19-2': (None, 'property C19 is not claimed'),
+ 'C19-1': ('C19', 'marks_exactly_suprathreshold_edges / null / pvalue on the 2+3 stack (unequal group sizes)'), 'C19-2': ('C19', 'pvalue_is_fraction_of_null_at_least_component_size#2 on the 5-node stack (two components of different sizes)'),
  'C20-1': ('C20', 'in/out_degree on makerandCIJdegreesfixed/211/121'), 'C20-2': ('C20', 'nearer_band_full_before_farther_used on makeringlatticeCIJ n=5'),
 }
 for d in sorted(glob.glob(os.path.join(V, 'seeded', '*'))):
